@@ -90,8 +90,9 @@ def replay_items(prop, mod):
 
 
 SCRATCH = os.path.realpath(env.REPO) != "/repo"          # aimed at a scratch copy: keep outputs out of the committed dirs
-OUT_EVIDENCE = os.path.join(VERIF, ".work", "scratch-evidence") if SCRATCH else os.path.join(VERIF, "evidence")
-OUT_REPLAYS = os.path.join(VERIF, ".work", "scratch-replays") if SCRATCH else os.path.join(VERIF, "replays")
+OUT_EVIDENCE = os.path.join(VERIF, ".work", "scratch-evidence-" + hashlib.sha256(os.path.realpath(env.REPO).encode()).hexdigest()[:8]) if SCRATCH else os.path.join(VERIF, "evidence")
+_PTAG = hashlib.sha256(os.path.realpath(env.REPO).encode()).hexdigest()[:8]
+OUT_REPLAYS = os.path.join(VERIF, ".work", "scratch-replays-" + _PTAG) if SCRATCH else os.path.join(VERIF, "replays")
 
 
 def write_replay(prop, sub, backend, fail):
